@@ -7,15 +7,50 @@ from harness import common as C
 
 THEOREMS = 'Properties/C15.v'
 CLAIM = dict(
-    text='(filled in below)',
-    note='',
+    text=('Proved in Coq (Properties/C15.v) about the model Model/Optima.v of optima_tt_beam / optima_tt_max / optima_tt / optima_qtt, '
+          'for every d >= 2, every shape without empty mode, every rank profile, both sweep directions: '
+          '(1) C15_beam_inv [any commutative ring, ANY selection returned by argsort]: every row of the index table is inside the '
+          'tensor bounds and the carried entry equals s^d times the tensor entry at that row (Kronecker bookkeeping of old and new '
+          'indices); C15_beam_first_inb: for k >= 1 the returned first row exists and is in bounds. '
+          '(2) C15_beam_full_exact [reals]: if k >= number of elements nothing is pruned and the returned index has maximal modulus; '
+          'C15_beam_rank1_exact [reals]: for TT-rank 1 and ANY k >= 1 the returned index has maximal modulus. '
+          '(3) C15_optima_tt_max_exact: optima_tt_max returns an in-bounds index, the value is the tensor entry there, and it has '
+          'maximal modulus when k >= number of elements or the tensor has rank 1. '
+          '(4) C15_optima_tt_values: for every k >= 1 optima_tt returns in-bounds indices, values equal to the entries there, and '
+          'y_min <= y_max. (5) C15_minmax_from_absmax + C15_optima_tt_exact_full: with k >= number of elements the reported minimum '
+          'and maximum are the true ones (any sign pattern, ties, constant tensors). '
+          '(6) C15_qtt_agrees / C15_optima_qtt_exact_full: optima_qtt is optima_tt on the quantised tensor with indices mapped back by '
+          'ind_qtt_to_tt; in-bounds, values are entries of Y, exact for k >= number of elements; rejected shapes give ValueError. '
+          'REFUTED on the code and listed as known finding C15/rank1-minmax-second-beam: "for every rank-1 tensor with any k the '
+          'reported minimum AND maximum are the true ones" -- only the maximum-modulus one is (theorem 3); the opposite-sign optimum '
+          'comes from a second beam on the squared shifted tensor of rank up to 4 (C15_rank1_minmax_refuted is a concrete exact '
+          'counterexample on the model; the search replays it on the implementation). '
+          '(7) functional variant, PARTIAL (model Model/OptimaFunc.v of _find_poly_max and of the point bookkeeping of _step_top_k): '
+          'C15_func_points_in_cube_partial: all coordinates of every returned point lie in [-1,1] whatever polyroots / argsort / the '
+          'linear algebra return; C15_func_points_dim: it has exactly d coordinates when the argsort over all candidates indexes into its '
+          'argument and there is one squared interpolant per kept point; C15_func_constant_poly: a constant squared interpolant yields the candidates -1, 1 without consulting polyroots '
+          '(commit 7bc82cb). NOT proved, validated numerically only (search against a fine grid): that a rank-1 interpolant attains '
+          'its maximum modulus at the returned point; and the floating-point effects of orthogonalize / 2**(p/d) (oracles with '
+          'contracts, checked on every recorded call).'),
+    note=('Order arguments are at Coq reals (no NaN: the zero tensor, where numpy computes 0/0 norms, is covered by the theorems because '
+          'every index is then optimal). External routines are Section variables with contracts: argsort (a permutation that sorts '
+          'ascending), orthogonalize(use_stab=True) (same shape, a fixed multiple of the same tensor, rank 1 stays rank 1), 2**(p/d) '
+          '(non-zero), x**(1/d) in const (d-th power gives x back), tt_to_qtt (value preservation under ind_qtt_to_tt). '
+          'Non-vacuity: C15_contracts_satisfiable, C15_example_*.'),
     technique='Coq proof (beam invariant by induction over the visited cores, order arguments at R) + '
               'model/implementation correspondence with replayed oracles + brute-force oracle on the dense tensor')
-TRUSTED = []
+TRUSTED = ['Coq 8.16.1 kernel; Reals axioms (Print Assumptions per theorem in the evidence)',
+           'oracle contract argsort_ok: np.argsort returns a permutation sorting ascending (checked on every recorded call against the model norms)',
+           'oracle contract orth_ok: orthogonalize(Y, piv, use_stab=True) keeps the shape, denotes Y / 2^p, keeps rank 1 (checked numerically on every recorded call, 1e-9)',
+           'oracle contract droot_ok: (x**(1/d))**d = x inside teneva.const (float rounding; model vs implementation dense squared-shifted tensor compared at 1e-9)',
+           'oracle contract qtt_ok: tt_to_qtt preserves values under the index map (C17; checked on every recorded call)',
+           'oracles of the functional variant (polyroots, both argsort calls, the squared partial interpolants) are unconstrained in the theorem and replayed in the correspondence',
+           'hand-written models Model/Optima.v, Model/OptimaFunc.v tied to /repo by the correspondence streams of this check on every run',
+           'floating point: theorems are over exact reals; ties within rounding error are excluded from the correspondence by a 1e-6 margin filter']
 TIME_LIMIT = {'quick': 900, 'thorough': 5400}
 
 HEADER = r'''From Coq Require Import List ZArith QArith Qcanon Floats.
-From TV Require Import Num.Ops Num.InstF Lin.Tab Lin.Mat TT.Chain Model.ActOne Model.GridInd Model.Optima.
+From TV Require Import Num.Ops Num.InstF Lin.Tab Lin.Mat TT.Chain Model.ActOne Model.GridInd Model.Optima Model.OptimaFunc.
 Import ListNotations.
 Definition showQ (q : Qc) : Z * Z := (Qnum (this q), Zpos (Qden (this q))).
 Definition OUT := (list (list nat) * list (list (Z * Z)))%type.
@@ -34,6 +69,13 @@ Definition allidx (ns : list nat) : list (list nat) :=
 Definition sortF : nat -> list float -> list nat := fun _ l => argsort_ins OF l.
 Definition show4D (r : list nat * float * list nat * float) (dense : list float) : OUT :=
   let '(i1, y1, i2, y2) := r in ([i1; i2], [[F_show y1; F_show y2]; map F_show dense]).
+Definition fvals (rts : nat -> nat -> list float -> list float) (s i : nat) (p : list float) : list float :=
+  map (fun x => oabs OF (polyval OF p x)) (cand_points OF rts s i p).
+(* rows of X, an empty row, then the values handed to argsort inside _find_poly_max, in call order *)
+Definition showFn rts as1 as2 (polys : list (list (list float))) (d k kl : nat) : OUT :=
+  ([], map (map F_show) (optima_func_all OF rts as1 as2 (fun s => nth s polys []) d k kl) ++ [[]] ++
+       concat (map (fun s => map (fun i => map F_show (fvals rts s i (nth i (nth s polys []) [])))
+                                 (seq 0 (length (nth s polys [])))) (seq 0 d))).
 Definition dummyorth : nat -> list (core float) -> nat -> list (core float) * Z := fun _ _ _ => ([], 0%Z).
 '''
 
@@ -172,6 +214,8 @@ def orth_contract(tn, o):
     2^p * Z denotes the same tensor as Y (1e-9 relative to max |Y|)."""
     if [G.shape[1] for G in o['inp']] != [G.shape[1] for G in o['out']]:
         return 'mode sizes changed'
+    if all(G.shape[0] == 1 and G.shape[2] == 1 for G in o['inp']) and not all(G.shape[0] == 1 and G.shape[2] == 1 for G in o['out']):
+        return 'rank-1 input, output of higher rank'
     A = tn.full(o['inp'])
     Bf = tn.full(o['out']) * 2.0 ** o['p']
     sc = float(np.max(np.abs(A))) if A.size else 0.0
@@ -314,6 +358,9 @@ def correspondence(R, ctx):
     bad += _check_pipeline(R, 'optima_tt_pipeline', Cc, sk, dict(cases=len(Cc), shapes=sorted({str(it['input']['ns']) for it in Cc})))
     D, sk = _qtt_cases(tn, rng, ctx['thorough'])
     bad += _check_pipeline(R, 'optima_qtt', D, sk, dict(cases=len(D), malformed=sum(1 for it in D if 'err' in it)))
+    Fc = _func_cases(tn, rng, ctx['thorough'])
+    bad += _check_func(R, 'optima_func_points', Fc, dict(cases=len(Fc), shapes=sorted({str(it['input']['ns']) for it in Fc}),
+                                                          constant_poly=sum(1 for it in Fc if 1 in it['input']['ns'])))
     return bad
 
 
@@ -362,21 +409,25 @@ def _tt_case(tn, rng, Y, k):
     return dict(rec=rec, r=r, Zs=Zs)
 
 
+DIRECTION_FAMILY = [
+    [[[[3.0, 0.0], [0.0, 2.0]]], [[[3.0, 1.0, 0.0], [-2.0, -1.0, -3.0], [-3.0, -2.0, 0.0]], [[-2.0, -1.0, 2.0], [0.0, 3.0, 2.0], [3.0, -1.0, 0.0]]],
+     [[[1.0], [3.0], [0.0]], [[1.0], [-1.0], [1.0]], [[1.0], [0.0], [1.0]]]],
+    [[[[-2.0, 2.0], [0.0, -1.0]]], [[[-3.0, 2.0, 1.0]], [[-1.0, 2.0, 3.0]]], [[[-1.0, -3.0]], [[-2.0, 1.0]], [[-2.0, 2.0]]],
+     [[[-3.0], [-3.0], [0.0]], [[0.0], [1.0], [0.0]]]],
+    [[[[-3.0, 1.0, -1.0]]], [[[1.0, 3.0, 2.0], [-2.0, 3.0, 3.0]], [[-1.0, -3.0, -1.0], [0.0, -1.0, 0.0]], [[2.0, -1.0, -3.0], [-3.0, 1.0, 0.0]]],
+     [[[1.0, -3.0], [1.0, 1.0], [3.0, 2.0]], [[1.0, 3.0], [3.0, -3.0], [-2.0, 3.0]], [[-3.0, -1.0], [-1.0, -2.0], [1.0, 3.0]]],
+     [[[0.0], [-2.0], [3.0]], [[1.0], [2.0], [-3.0]]]],
+]
+
+
 def _pipeline_cases(tn, rng, thorough):
     """stream C: optima_tt end to end (float; reference argsort inside the model; orthogonalize, 2**(p/d) and the
     d-th root replayed), plus the dense 'squared shifted' tensor of the model."""
     items, skipped = [], 0
-    n_t = 60 if thorough else 14
-    while len(items) < (400 if thorough else 70) and n_t > 0:
-        n_t -= 1
-        ns, rs = rand_shape(rng, dmax=4, nmax=3, rmax=2, nelem=24)
-        Y = rand_tt(rng, ns, rs, 'float')
-        if rng.random() < 0.3:       # one-signed tensors (all negative / all positive entries)
-            Y = [np.abs(G) for G in Y]
-            if rng.random() < 0.5:
-                Y[0] = -Y[0]
-        N = nelem(Y)
-        for k in sorted(set([1, 2, N, N + 1] + [rng.randint(1, N) for _ in range(3)])):
+
+    def add(ns, rs, Y, ks):
+        nonlocal skipped
+        for k in ks:
             c = _tt_case(tn, rng, Y, k)
             if c is None:
                 skipped += 1
@@ -397,6 +448,22 @@ def _pipeline_cases(tn, rng, thorough):
                               dense=tn.full(c['Zs']).ravel().tolist(),
                               orth_bad=[orth_contract(tn, o) for o in rec.orth],
                               input=dict(stream='C', ns=ns, rs=rs, k=k, Y=[G.tolist() for G in Y])))
+    # fixed family: the two sweep directions find entries of different modulus at k = 1 (left-to-right better in the first
+    # and the last tensor, right-to-left better in the second), so "best of both directions" is exercised
+    for cores in DIRECTION_FAMILY:
+        Y = [np.array(G, dtype=float) for G in cores]
+        add([G.shape[1] for G in Y], [1] + [G.shape[2] for G in Y], Y, [1])
+    n_t = 60 if thorough else 14
+    while len(items) < (400 if thorough else 70) and n_t > 0:
+        n_t -= 1
+        ns, rs = rand_shape(rng, dmax=4, nmax=3, rmax=2, nelem=24)
+        Y = rand_tt(rng, ns, rs, 'float')
+        if rng.random() < 0.3:       # one-signed tensors (all negative / all positive entries)
+            Y = [np.abs(G) for G in Y]
+            if rng.random() < 0.5:
+                Y[0] = -Y[0]
+        N = nelem(Y)
+        add(ns, rs, Y, sorted(set([1, 2, N, N + 1] + [rng.randint(1, N) for _ in range(3)])))
     return items, skipped
 
 
@@ -489,6 +556,136 @@ def _check_pipeline(R, name, items, skipped, distribution):
     return bad
 
 
+
+# ----------------------------------------------------------------------------------------------
+# functional variant: model Model/OptimaFunc.v (candidate points, selection, assembly of the points)
+# ----------------------------------------------------------------------------------------------
+
+class RecFunc:
+    """records, per mode s: the polynomial handed to every _find_poly_max call, the numerically real roots that
+    polyroots returned for it (None when polyroots was not called), the argsort inside it, and the argsort over all_y"""
+
+    def __init__(self, tn):
+        import sys
+        self.M = sys.modules['teneva.optima_func']
+
+    def __enter__(self):
+        M = self.M
+        self.steps = []
+        self._step, self._fpm, self._roots, self._sort = M._step_top_k, M._find_poly_max, np.polynomial.polynomial.polyroots, np.argsort
+        rec = self
+
+        def step(*a, **kw):
+            rec.steps.append(dict(cands=[], sort2=None, y=None))
+            return rec._step(*a, **kw)
+
+        def fpm(p, *a, **kw):
+            rec.steps[-1]['cands'].append(dict(p=[float(c) for c in p], roots=None, sort1=None, vals=None))
+            return rec._fpm(p, *a, **kw)
+
+        def roots(dp):
+            out = rec._roots(dp)
+            x0 = np.asarray(out)
+            rec.steps[-1]['cands'][-1]['roots'] = [float(x) for x in x0[np.abs(np.imag(x0)) < 1e-4].real]
+            return out
+
+        def argsort(a, *args, **kw):
+            out = rec._sort(a, *args, **kw)
+            st = rec.steps[-1]
+            c = st['cands'][-1] if st['cands'] else None
+            if c is not None and c['sort1'] is None:
+                c['sort1'], c['vals'] = np.asarray(out).tolist(), [float(x) for x in np.asarray(a, dtype=float).ravel()]
+            else:
+                st['sort2'], st['y'] = np.asarray(out).tolist(), [float(x) for x in np.asarray(a, dtype=float).ravel()]
+            return out
+        M._step_top_k, M._find_poly_max, np.polynomial.polynomial.polyroots, np.argsort = step, fpm, roots, argsort
+        self._w = warnings.catch_warnings()
+        self._w.__enter__()
+        warnings.simplefilter('ignore')
+        self._e = np.seterr(all='ignore')
+        return self
+
+    def __exit__(self, *a):
+        M = self.M
+        M._step_top_k, M._find_poly_max, np.polynomial.polynomial.polyroots, np.argsort = self._step, self._fpm, self._roots, self._sort
+        np.seterr(**self._e)
+        self._w.__exit__(*a)
+        return False
+
+
+def Fl(xs):
+    return '[' + '; '.join(F(x) for x in xs) + ']'
+
+
+def _func_cases(tn, rng, thorough):
+    items = []
+    shapes = [([1, 3], [1, 1, 1]), ([3, 1], [1, 2, 1]), ([2, 2], [1, 1, 1]), ([1, 1], [1, 1, 1]), ([3, 2, 1], [1, 2, 1, 1])]
+    for _ in range(30 if thorough else 9):
+        d = rng.randint(2, 3)
+        shapes.append(([rng.randint(1, 4) for _ in range(d)], [1] + [rng.randint(1, 2) for _ in range(d - 1)] + [1]))
+    for ns, rs in shapes:
+        A = rand_tt(rng, ns, rs, 'float')
+        for k, k_loc in [(1, None), (3, None), (4, 2)]:
+            d = len(ns)
+            inp = dict(stream='F', ns=ns, rs=rs, k=k, k_loc=k_loc, A=[G.tolist() for G in A], func=True)
+            try:
+                with RecFunc(tn) as rec:
+                    X = np.asarray(tn.optima_func_tt_beam(copy_tt(A), k, k_loc, ret_all=True), dtype=float)
+                    x0 = np.asarray(tn.optima_func_tt_beam(copy_tt(A), k, k_loc), dtype=float)
+            except Exception as e:  # noqa
+                items.append(dict(coq='(([] : list (list nat)), ([] : list (list (Z * Z))))', broken='implementation raised ' + repr(e)[:200], input=inp))
+                continue
+            steps = rec.steps[:d]
+            polys = '[' + '; '.join('[' + '; '.join(Fl(c['p']) for c in st['cands']) + ']' for st in steps) + ']'
+            rts = '[' + '; '.join('[' + '; '.join(Fl(c['roots'] or []) for c in st['cands']) + ']' for st in steps) + ']'
+            s1 = '[' + '; '.join(NNl([c['sort1'] or [] for c in st['cands']]) for st in steps) + ']'
+            s2 = NNl([st['sort2'] or [] for st in steps])
+            coq = (f'(let rts := (fun s i (_ : list float) => nth i (nth s {rts} []) []) in '
+                   f'let as1 := (fun s i (_ : list float) => nth i (nth s {s1} []) []) in '
+                   f'let as2 := (fun s (_ : list float) => nth s {s2} []) in '
+                   f'showFn rts as1 as2 {polys} {d} {k} {k if k_loc is None else k_loc})')
+            items.append(dict(coq=coq, X=X.tolist(), x0=x0.tolist(), steps=steps, input=inp))
+    return items
+
+
+def _check_func(R, name, items, distribution):
+    vals = C.run_cases(f'C15_{name}', HEADER, [it['coq'] for it in items], chunk=12)
+    bad = []
+    for it, (_, rows) in zip(items, vals):
+        R.add_distinct((name, it['input']))
+        why = None
+        if 'broken' in it:
+            why = it['broken']
+        else:
+            cut = rows.index([]) if [] in rows else len(rows)
+            Xm = [[C.float_of_show(p) for p in r] for r in rows[:cut]]
+            tr = [[C.float_of_show(p) for p in r] for r in rows[cut + 1:]]
+            iv = [c for st in it['steps'] for c in st['cands']]
+            if Xm != it['X']:
+                why = 'returned points differ'
+            elif (Xm[0] if Xm else None) != it['x0']:
+                why = 'ret_all=False result is not the first point'
+            elif any(not (-1.0 <= x <= 1.0) for r in it['X'] for x in r):
+                why = 'returned point outside the cube'
+            elif len(tr) != len(iv):
+                why = 'number of _find_poly_max calls differs'
+            else:
+                for mv, c in zip(tr, iv):
+                    sc = max([abs(x) for x in c['vals']] + [1e-300])
+                    if len(mv) != len(c['vals']) or not all(abs(a - b) <= 1e-9 * sc for a, b in zip(mv, c['vals'])):
+                        why = 'candidate values handed to argsort differ'
+                        break
+            it['model'] = Xm
+        if why:
+            bad.append(dict(stream=name, why=why, input=it['input'], model=it.get('model'), impl=it.get('X')))
+    R.corr.append(dict(name=name, cases=len(items), mismatches=len(bad),
+                       comparison='returned points exact (polyroots, argsort and the squared partial interpolants replayed); '
+                                  'candidate values handed to argsort 1e-9',
+                       distribution=distribution, first_mismatches=bad[:3]))
+    if items:
+        R.samples.append(dict(stream=name, input=items[0]['input'], model=items[0].get('model'), impl=items[0].get('X')))
+    return bad
+
 # ----------------------------------------------------------------------------------------------
 # property-level oracle on the implementation (independent of the model): brute force on the dense tensor
 # ----------------------------------------------------------------------------------------------
@@ -545,6 +742,11 @@ def _oracle_tt(tn, Y, k, rank1=None):
             return fail('optima_tt_max value is not the tensor entry at the returned index', float(y), float(Fd[tuple(int(a) for a in i)]))
         if exact and abs(abs(float(y)) - float(np.max(np.abs(Fd)))) > tol:
             return fail('optima_tt_max misses the maximum modulus', float(y), float(np.max(np.abs(Fd))))
+        for l2r in (True, False):       # best of both sweep directions
+            ib = _quiet(tn.optima_tt_beam, copy_tt(Y), k, l2r=l2r)
+            if abs(float(y)) < abs(float(Fd[tuple(int(a) for a in ib)])) - tol:
+                return fail('optima_tt_max returns a smaller modulus than the beam of one sweep direction (l2r=%s)' % l2r,
+                            float(y), float(Fd[tuple(int(a) for a in ib)]))
         i_min, y_min, i_max, y_max = _quiet(tn.optima_tt, copy_tt(Y), k)
         if not (_inb(i_min, ns) and _inb(i_max, ns)):
             return fail('optima_tt returns a multi-index outside the tensor bounds', [np.asarray(i_min).tolist(), np.asarray(i_max).tolist()], ns)
@@ -554,9 +756,18 @@ def _oracle_tt(tn, Y, k, rank1=None):
         if not (float(y_min) <= float(y_max)):
             return fail('optima_tt reports y_min > y_max', [float(y_min), float(y_max)])
         if exact and (abs(float(y_min) - float(Fd.min())) > tol or abs(float(y_max) - float(Fd.max())) > tol):
-            return fail('optima_tt misses the true minimum / maximum although %s'
-                        % ('k >= number of elements' if k >= N else 'the tensor has rank 1'),
-                        [float(y_min), float(y_max)], [float(Fd.min()), float(Fd.max())])
+            f = fail('optima_tt misses the true minimum / maximum although %s'
+                     % ('k >= number of elements' if k >= N else 'the tensor has rank 1'),
+                     [float(y_min), float(y_max)], [float(Fd.min()), float(Fd.max())])
+            # known finding K1: rank-1 input, k < N, the maximum-modulus optimum is right and only the opposite-sign one
+            # (found by the second beam on the squared shifted tensor of rank up to 4) is wrong.  Anything else stays a violation.
+            r1 = all(G.shape[0] == 1 and G.shape[2] == 1 for G in Y)
+            big, big_true = ((y_max, Fd.max()) if abs(float(y_max)) >= abs(float(y_min)) else (y_min, Fd.min()))
+            if r1 and k < N and abs(abs(float(big)) - sc) <= tol and abs(float(big) - float(big_true)) <= tol:
+                f['what'] = ('optima_tt on a rank-1 tensor with k < number of elements: the opposite-sign optimum (second beam on '
+                             'the squared shifted tensor) is not the true one')
+                f['finding_key'] = 'C15/rank1-minmax-second-beam'
+            return f
     except Exception as e:  # noqa
         return fail('optimum search raised on a valid tensor: ' + repr(e)[:200])
     return None
@@ -632,6 +843,8 @@ def _search_tensors(rng, deep):
             ('rank1-allpos', [one([1, 4, 2]), one([1, 3]), one([2, 5])]), ('zero', [one([0, 0]), one([0, 0, 0])]),
             ('zero-r2', [np.zeros((1, 2, 2)), np.zeros((2, 3, 1))]),
             ('rank1-onezero-mode', [one([0, 0]), one([1, 2])]), ('n1', [one([3]), one([-2])]), ('n1-mid', [one([1, -2]), one([2]), one([1, 3])])]
+    # known finding K1 (C15/rank1-minmax-second-beam): k = 1 reports the maximum 9 instead of 12
+    out.append(('rank1-known-K1', [one([1, -2, 1]), one([-3, 1]), one([2, -3, -2])]))
     for ns in ([2, 3], [2, 2, 2], [3, 1, 2], [4, 4]):
         for v in (5.0, -5.0, 1.0, -0.25, 1e-20, 0.0):
             out.append(('const', [np.full((1, n, 1), 1.0) for n in ns[:-1]] + [np.full((1, ns[-1], 1), v)]))
@@ -718,6 +931,12 @@ def search(R, ctx, deep, hints):
     fam['func-rank1'] = nfun
     R.search.append(dict(name='brute force on the dense tensor / fine grid', evaluations=n_eval, failures=len(fails), deep=deep,
                          families=fam))
+    # ./check reports a broken proof / correspondence only when the search returns nothing; the known finding must not
+    # mask it: when something else is broken, hand back only the failures that are not the known finding
+    broken = (R.build_ok is False) or bool(R.forbidden) or any(not o.get('ok') for o in R.obligations) or \
+        any(c.get('mismatches') for c in R.corr)
+    if broken:
+        fails = [f for f in fails if not f.get('finding_key')]
     return fails
 
 
